@@ -24,6 +24,7 @@ type Clause struct {
 
 type LoopSpec struct {
 	Invariants []Clause
+	Exits      []Clause
 	Unfolds    []Clause
 	Unroll     int
 }
@@ -435,6 +436,14 @@ func ParseSpecFile(fset *token.FileSet, f *ast.File) (*SpecFile, error) {
 						return nil, err
 					}
 					ls.Unfolds = append(ls.Unfolds, c)
+				case "exit":
+					// loop k exit P: P holds on every edge that leaves loop k (normal exit, break, goto out of it;
+					// not return). An obligation, in terms of the loop's variables at the moment of leaving.
+					c, err := mkClause(body)
+					if err != nil {
+						return nil, err
+					}
+					ls.Exits = append(ls.Exits, c)
 				case "unroll":
 					n, err := strconv.Atoi(body)
 					if err != nil {
